@@ -539,9 +539,26 @@ func renderVec(v *renderVector) (src string, got outcome, want string, wantErr b
 	before := snapshotCtx(ctx)
 	renderLog.take()
 	renderLog.install()
-	got = render(set, src, ctx)
+	var tpl *pongo2.Template
+	tpl, got = compileString(set, src)
+	if got.class() == "ok" {
+		got = execute(tpl, ctx)
+	} else {
+		got.Err = "compile: " + got.Err
+		tpl = nil
+	}
 	uninstallTracer()
 	recs := renderLog.take()
+	// the same compiled template executed once more gives the same again (the specification's rendering is a function of
+	// program and context): checked after everything else agrees
+	defer func() {
+		if problem != "" || tpl == nil || got.Panic != "" {
+			return
+		}
+		if again := execute(tpl, ctx); again.Panic != "" || (again.Err == "") != (got.Err == "") || again.Out != got.Out {
+			problem = fmt.Sprintf("a second execution of the compiled template rendered %q %s, the first %q %s", again.Out, firstLine(again.Err+again.Panic), got.Out, firstLine(got.Err))
+		}
+	}()
 	if snapshotCtx(ctx) != before {
 		problem = "the caller's Context was modified by the execution"
 		return
